@@ -817,6 +817,10 @@ class BaseProperty(base.BaseObject):
             self.values = obj
             return
 
+        # Ignore empty values like append and insert do.
+        if obj in [None, "", [], {}, ()]:
+            return
+
         new_value = self._convert_value_input(obj)
 
         if self._dtype.endswith("-tuple"):
@@ -849,7 +853,7 @@ class BaseProperty(base.BaseObject):
         """
         # Ignore empty values before nasty stuff happens, but make sure
         # 0 and False get through.
-        if obj in [None, "", [], {}]:
+        if obj in [None, "", [], {}, ()]:
             return
 
         if not self.values:
@@ -893,7 +897,7 @@ class BaseProperty(base.BaseObject):
 
         # Ignore empty values before nasty stuff happens, but make sure
         # 0 and False get through.
-        if obj in [None, "", [], {}]:
+        if obj in [None, "", [], {}, ()]:
             return
 
         if not self.values:
